@@ -48,7 +48,7 @@ class Prop(PropBase):
         n = 2000 if tier == "quick" else 40000
         for i in range(n):
             nops = rng.choice([2, 3, 5, 8, 13, 21, 34, 60]) if tier == "quick" else rng.choice([3, 8, 21, 60, 150, 400])
-            line = tg.history(rng, nops, sized=True, ops_weights=DUP_WEIGHTS, inputs=(i % 3 == 0))
+            line = tg.history(rng, nops, sized=True, ops_weights=DUP_WEIGHTS, inputs=(i % 3 == 0), localised=(i % 5 == 2))
             cs.append(Case(line, tag="history", cfgs=tg.configs(rng, 2)))
         # correspondence only: moves to positions OUTSIDE the declared size (also repeated), where the oracle stops judging
         for i in range(500 if tier == "quick" else 6000):
